@@ -77,7 +77,7 @@ func (p *plugin) RunPodSandbox(_ context.Context, pod *api.PodSandbox) error {
 		go func() { time.Sleep(2 * time.Millisecond); os.Exit(3) }()
 	}
 	if p.hang {
-		select {} // never answers: the runtime drops the plugin after the request timeout - and must kill it
+		time.Sleep(time.Hour) // never answers: the runtime drops the plugin after the request timeout - and must kill it
 	}
 	return nil
 }
@@ -115,7 +115,11 @@ func main() {
 	case "noregister":
 		time.Sleep(time.Hour)
 	}
-	opts := []stub.Option{stub.WithOnClose(func() { os.Exit(0) })}
+	opts := []stub.Option{stub.WithOnClose(func() {
+		if c.Behaviour != "hang" { // a hanging plugin does not even leave when its connection is closed: it has to be killed
+			os.Exit(0)
+		}
+	})}
 	if c.Behaviour == "liar" {
 		// registers under an identity of its own choosing (the environment was recorded above)
 		os.Unsetenv("NRI_PLUGIN_NAME")
@@ -127,7 +131,11 @@ func main() {
 		fmt.Fprintln(os.Stderr, "probe:", err)
 		os.Exit(2)
 	}
-	if err := st.Run(context.Background()); err != nil {
+	err = st.Run(context.Background())
+	if c.Behaviour == "hang" {
+		time.Sleep(time.Hour)
+	}
+	if err != nil {
 		os.Exit(4)
 	}
 }
